@@ -221,9 +221,9 @@ impl<T> TransientSource<T> {
     /// unregistered as needed after it exits.
     pub fn remove(&mut self) {
         match std::mem::take(&mut self.state) {
-            // The source is not registered any more, so there is nothing left
-            // to unregister: it can simply be dropped.
-            TransientSourceState::Disabled(_) => (),
+            // The source is not registered (not yet, or not any more), so there
+            // is nothing to unregister: it can simply be dropped.
+            TransientSourceState::Register(_) | TransientSourceState::Disabled(_) => (),
             // A replacement was pending: it was never registered and can be
             // dropped, but the old source still has to be unregistered.
             TransientSourceState::Replace { old, .. } => {
@@ -248,9 +248,9 @@ impl<T> TransientSource<T> {
     /// registered and unregistered as needed after it exits.
     pub fn replace(&mut self, new: T) {
         match std::mem::take(&mut self.state) {
-            // The old source is not registered any more, only the new one needs
-            // to be registered.
-            TransientSourceState::Disabled(_) => {
+            // The old source is not registered (not yet, or not any more), only
+            // the new one needs to be registered.
+            TransientSourceState::Register(_) | TransientSourceState::Disabled(_) => {
                 self.state = TransientSourceState::Register(new);
             }
             // A replacement was already pending: it was never registered and is
